@@ -3,25 +3,44 @@ PROP = dict(
     pkg="c18", level="fault_enumeration",
     technique=("crash-point / cancellation-point enumeration over the real migration.Runner with the real migrators on generated "
                "previous-layout databases (fault-injecting KeyValueStore: crash after commit k, cancel at DB operation k, slow-read gate), "
-               "differential against the uninterrupted upgrade and the natively written database; trace checker for the runner bookkeeping"),
+               "optional flags --new-state and --prune-mode each switched on at a drawn restart, the real history-prune migration in the loop; "
+               "differential against the uninterrupted upgrade (under the final flags) and the natively written database above the image's retention floor; "
+               "trace checker for the runner bookkeeping"),
     level_text=("Fault enumeration: for every generated previous-layout database the upgrade is first run uninterrupted (reference image, "
                 "W commits, N database operations); the thorough tier then interrupts it after EVERY commit (simulated process death, frozen image) "
                 "and at EVERY database operation (context cancellation), the quick tier at 4-8 drawn points aimed at the inside of the migrations; "
-                "each interruption is followed by 0-2 further drawn interruptions and restarts until completion. Every image a later process can "
-                "find is checked (applied => post-condition), the final image must equal the reference byte for byte. Exhaustive over interruption "
+                "each interruption is followed by 0-2 further drawn interruptions and restarts until completion, with --new-state and --prune-mode "
+                "each given from a drawn restart (0,1,2) on, so that optional migrations of a LOWER index become pending after a higher one was "
+                "interrupted (history pruning after a half-done state-diff-length backfill). Every image a later process can "
+                "find is checked (applied => post-condition for every block at or above the image's ACTUAL retention floor, which never exceeds "
+                "pivot - retained; no block lost before pruning ran), the final image must equal the reference under the final flags byte for byte "
+                "(this holds on the unchanged tree also when pruning is switched on late: what an earlier backfill wrote below the floor is deleted "
+                "with the block), and after late pruning the completed image itself answers the whole Reader API like the natively written database "
+                "for retained blocks (below the floor: missing or original, never partial). Exhaustive over interruption "
                 "points of the explored schedules; commit ORDER inside a migration's worker pool is scheduler-dependent and only sampled "
                 "(natural order + one drawn slow read). The runner's rules are checked on synthetic migrations over all documented return shapes."),
     rule=("TestPropRealMigrations: chain of 0-26 (quick) / 0-45 (thorough) generated blocks incl. empty blocks, leading empty runs and lengths around "
           "the 10-block batch boundary, stored with Blockchain.Store and converted back (per-tx buckets via migration/blocktransactions/txlayout, "
           "commitments re-encoded without StateDiffLength; 1/4 of the cases: prefix pruned by pruner.PruneUpto, migrations 0 and 1 pre-applied); "
-          "registry = node.registerMigrations (blocktransactions, historyprunner[opt], headstate[opt, enabled from a drawn restart on], statedifflength). "
-          "Non-trivial = the first interruption landed strictly inside a migration (after its first commit, before its last); distinct = SHA-256 of "
+          "L1 head record written through Blockchain.SetL1Head: none / behind / equal / ahead of the local head (pruning is drawn only when there is one, "
+          "as node.fetchL1HeadIfMissing guarantees); "
+          "registry = node.registerMigrations (blocktransactions, historyprunner[opt, built with a drawn --prune-mode value 0,1,2,5,>chain and minAge 0, "
+          "enabled from a drawn restart on, also on top of the per-tx layout and together with --new-state], headstate[opt, enabled from a drawn restart on], "
+          "statedifflength). 1/6 of the cases follow a forced skeleton: >= 12 blocks, L1 head near the local head, run 0 without pruning and cancelled "
+          "inside the state-diff-length backfill, --prune-mode 0-2 from run 1 on (the checkpoint then lies below the new floor in about 1/5 of all cases). "
+          "A scenario stops (counted as excluded) when a restart image falls into the class of a listed known finding (block-transactions empty-block gap; "
+          "history-prune stager checkpoint that outlived a lifetime which wiped the scratch namespace and died before the applied commit). "
+          "Non-trivial = the first interruption landed strictly inside a migration (after its first commit, before its last), or a backfill checkpoint "
+          "was left below the floor the history-prune migration established at a later restart; distinct = SHA-256 of "
           "chain + plan. TestPropRunnerBookkeeping: 1-5 synthetic migrations x scripts over (nil,nil) (state,nil) (state,ctxErr) (nil,ctxErr) "
           "(nil,otherErr) (state,otherErr) x cancellation during Migrate x Before failure x 1-7 process lifetimes with optional flags toggled, "
           "truncated registries, pre-cancelled contexts and crashes; non-trivial = a lifetime resumed from persisted intermediate state or a refusal rule fired."),
     assumptions=["memory.Database batches are atomic (C15) and stand in for Pebble; a crash loses nothing that was committed",
                  "the order in which the worker pool of a migration commits its batches is sampled, not enumerated",
                  "the deprecated (pre-registry) migrations are out of scope: the generated databases are at the deprecated framework's final version",
-                 "a previous-layout database with per-tx buckets is never pruned (the pruner post-dates the combined layout); pruned prefixes are generated with migrations 0,1 applied"],
+                 "a previous-layout database with per-tx buckets is never pruned BEFORE the upgrade (the pruner post-dates the combined layout); pre-pruned prefixes are generated with migrations 0,1 applied, "
+                 "all other pruned prefixes are produced by the real history-prune migration during the scenario",
+                 "--prune-mode keeps one value over a case and --prune-min-age is 0 (the wall clock never decides what is pruned); an L1 head record exists whenever pruning is enabled (node.fetchL1HeadIfMissing)",
+                 "on an image on which the history-prune migration is unfinished the hash-keyed reverse lookups are not demanded (it wipes and rebuilds them; no node serves from such an image)"],
     runs=[dict(run="^Test(Prop|Known)")],
 )
